@@ -83,6 +83,32 @@ func init() {
 			{Name: "forward lookup without the lock", ExpectRule: "C09.R5", ExpectKey: "ForwardTable", Edits: []Edit{
 				{File: fw, Old: "func (t *ForwardTable) Lookup(key string) *ForwardRoute {\n\tt.mu.RLock()\n\tdefer t.mu.RUnlock()\n\n", New: "func (t *ForwardTable) Lookup(key string) *ForwardRoute {\n"},
 			}},
+			{Name: "round2: domain lookup served from a result cache", ExpectRule: "C09.R1", ExpectKey: "every result is the head", Edits: []Edit{
+				{File: d, Old: "\tdomain = strings.ToLower(domain)\n\n\t// 1. Check exact match first\n", New: "\tdomain = strings.ToLower(domain)\n\tif r, ok := domainHot.Load(domain); ok {\n\t\treturn r.(*DomainRoute).Clone()\n\t}\n\n\t// 1. Check exact match first\n"},
+				{File: d, Old: "// lookupUnlocked performs lookup without locking (caller must hold lock).\nfunc (t *DomainTable) lookupUnlocked", New: "var domainHot sync.Map\n\n// lookupUnlocked performs lookup without locking (caller must hold lock).\nfunc (t *DomainTable) lookupUnlocked"},
+			}},
+			{Name: "round2: long names rejected before any lookup", ExpectRule: "C09.R1", ExpectKey: "every result is the head", Edits: []Edit{
+				{File: d, Old: "\tdomain = strings.ToLower(domain)\n\n\t// 1. Check exact match first\n", New: "\tdomain = strings.ToLower(domain)\n\tif len(domain) > 64 {\n\t\treturn nil\n\t}\n\n\t// 1. Check exact match first\n"},
+			}},
+			{Name: "round2: exact map probed with an alias key first", ExpectRule: "C09.R1", Edits: []Edit{
+				{File: d, Old: "\tdomain = strings.ToLower(domain)\n\n\t// 1. Check exact match first\n", New: "\tdomain = strings.ToLower(domain)\n\tif routes := t.exactRoutes[\"www.\"+domain]; len(domain) > 64 && len(routes) > 0 {\n\t\treturn routes[0].Clone()\n\t}\n\n\t// 1. Check exact match first\n"},
+			}},
+			{Name: "round2: forward lookup alias fast path", ExpectRule: "C09.R5", ExpectKey: "ForwardTable", Edits: []Edit{
+				{File: fw, Old: "\tif routes, ok := t.routes[key]; ok && len(routes) > 0 {\n\t\treturn routes[0].Clone() // First is best due to sorting by metric\n\t}\n\treturn nil\n}", New: "\tif routes := t.routes[key+\".local\"]; len(key) > 64 && len(routes) > 0 {\n\t\treturn routes[0].Clone()\n\t}\n\tif routes, ok := t.routes[key]; ok && len(routes) > 0 {\n\t\treturn routes[0].Clone() // First is best due to sorting by metric\n\t}\n\treturn nil\n}"},
+			}},
+			{Name: "round2: agent lookup refuses the local id", ExpectRule: "C09.R5", ExpectKey: "AgentTable", Edits: []Edit{
+				{File: ag, Old: "func (t *AgentTable) Lookup(agentID identity.AgentID) *AgentRoute {\n\tt.mu.RLock()", New: "func (t *AgentTable) Lookup(agentID identity.AgentID) *AgentRoute {\n\tif agentID == t.localID {\n\t\treturn nil\n\t}\n\tt.mu.RLock()"},
+			}},
+			{Name: "round2: forward RemoveRoute swap-delete", ExpectRule: "C09.R4", ExpectKey: "ForwardTable).RemoveRoute", Edits: []Edit{
+				{File: fw, Old: "\t\t\tt.routes[key] = append(routes[:i], routes[i+1:]...)\n\t\t\tif len(t.routes[key]) == 0 {\n\t\t\t\tdelete(t.routes, key)\n\t\t\t}\n", New: "\t\t\tlast := len(routes) - 1\n\t\t\troutes[i] = routes[last]\n\t\t\troutes[last] = nil\n\t\t\tif last == 0 {\n\t\t\t\tdelete(t.routes, key)\n\t\t\t} else {\n\t\t\t\tt.routes[key] = routes[:last]\n\t\t\t}\n"},
+			}},
+			{Name: "round2: folding hoisted onto the wrong variable", ExpectRule: "C09.R3", Edits: []Edit{
+				{File: d, Old: "\tif isWildcard {\n\t\treturn t.wildcardBase, strings.ToLower(baseDomain)\n\t}\n\treturn t.exactRoutes, strings.ToLower(pattern)\n", New: "\tpattern = strings.ToLower(strings.TrimSpace(pattern))\n\tif isWildcard {\n\t\treturn t.wildcardBase, baseDomain\n\t}\n\treturn t.exactRoutes, pattern\n"},
+			}},
+			{Name: "round2 rewrite: empty-argument guards", Edits: []Edit{
+				{File: d, Old: "func (t *DomainTable) Lookup(domain string) *DomainRoute {\n\tt.mu.RLock()", New: "func (t *DomainTable) Lookup(domain string) *DomainRoute {\n\tif domain == \"\" {\n\t\treturn nil\n\t}\n\tt.mu.RLock()"},
+				{File: fw, Old: "\tif routes, ok := t.routes[key]; ok && len(routes) > 0 {\n\t\treturn routes[0].Clone() // First is best due to sorting by metric\n\t}\n\treturn nil\n}", New: "\tif key == \"\" || len(t.routes) == 0 {\n\t\treturn nil\n\t}\n\tif routes, ok := t.routes[key]; ok && len(routes) > 0 {\n\t\treturn routes[0].Clone() // First is best due to sorting by metric\n\t}\n\treturn nil\n}"},
+			}},
 			// rewrites
 			{Name: "rewrite: strings.Cut, negated conditions", Edits: []Edit{
 				{File: d, Old: "\tidx := strings.Index(domain, \".\")\n\tif idx > 0 && idx < len(domain)-1 {\n\t\tbaseDomain := domain[idx+1:]\n\t\tif routes, ok := t.wildcardBase[baseDomain]; ok && len(routes) > 0 {\n\t\t\treturn routes[0].Clone()\n\t\t}\n\t}\n", New: "\tlabel, baseDomain, found := strings.Cut(domain, \".\")\n\tif !found || label == \"\" || baseDomain == \"\" {\n\t\treturn nil\n\t}\n\troutes := t.wildcardBase[baseDomain]\n\tif len(routes) == 0 {\n\t\treturn nil\n\t}\n\treturn routes[0].Clone()\n"},
@@ -264,6 +290,9 @@ func (w *c09Walk) evalInt(v ssa.Value) (int64, bool) {
 			if b, ok := a.Type().Underlying().(*types.Basic); ok && b.Kind() == types.String {
 				return w.strLen, true
 			}
+			if c08RouteOfMap(a.Type()) != nil {
+				return 1, true // the table is not empty in the scenarios walked
+			}
 		}
 		if cal.Pkg == "strings" && (cal.Name == "Index" || cal.Name == "IndexByte" || cal.Name == "IndexRune") {
 			return w.idx, true
@@ -385,6 +414,106 @@ func (w *c09Walk) run() c09Ret {
 	return c09Ret{kind: "other"}
 }
 
+// c09ReturnShape: structural complement of the scenario walk. Every return of lookup function
+// fn yields nil or element 0 of a bucket obtained by a map lookup on the receiver's bucket
+// maps with an accepted key; every such map access in fn uses an accepted key; a nil return
+// that is not preceded by a bucket lookup is justified by an empty argument / empty table
+// only. This excludes fast paths, caches and alias keys whatever their guarding condition.
+func (m *c08Model) c09ReturnShape(t *c08Table, fn *ssa.Function, keyOK func(f *types.Var, key ssa.Value) bool) []string {
+	p := m.p
+	var bad []string
+	var lookups []*ssa.Lookup
+	kit.Instrs(fn, func(in ssa.Instruction) {
+		switch x := in.(type) {
+		case *ssa.Lookup:
+			if c08RouteOfMap(x.X.Type()) == t.route {
+				lookups = append(lookups, x)
+				f, base := kit.LoadedField(x.X)
+				if f == nil || len(fn.Params) == 0 || base != ssa.Value(fn.Params[0]) {
+					bad = append(bad, "the bucket map read at "+p.Pos(x.Pos())+" is not a bucket map of the receiver")
+				} else if !keyOK(f, x.Index) {
+					bad = append(bad, "the bucket read at "+p.Pos(x.Pos())+" is keyed by something other than the requested key (alias / derived key): the route returned need not belong to the requested key")
+				}
+			}
+		case *ssa.Range:
+			if c08RouteOfMap(x.X.Type()) == t.route {
+				bad = append(bad, "the lookup iterates over the bucket map at "+p.Pos(x.Pos())+" instead of reading the bucket of the requested key")
+			}
+		}
+	})
+	var classify func(v ssa.Value, seen map[ssa.Value]bool) string
+	classify = func(v ssa.Value, seen map[ssa.Value]bool) string {
+		if seen[v] {
+			return ""
+		}
+		seen[v] = true
+		if kit.IsNilConst(v) {
+			return ""
+		}
+		if cv, ok := c08CellValue(v); ok {
+			return classify(cv, seen)
+		}
+		switch x := v.(type) {
+		case *ssa.Phi:
+			for _, e := range x.Edges {
+				if why := classify(e, seen); why != "" {
+					return why
+				}
+			}
+			return ""
+		case *ssa.Call:
+			if kit.CalleeOf(x).Static != nil && len(x.Call.Args) == 1 && c08RouteOfPtr(x.Call.Args[0].Type()) == t.route && c08RouteOfPtr(x.Type()) == t.route {
+				return classify(x.Call.Args[0], seen) // Clone
+			}
+		case *ssa.UnOp:
+			if x.Op == token.MUL {
+				if ia, ok := x.X.(*ssa.IndexAddr); ok {
+					b := m.bucketOf(ia.X)
+					if b != nil && b.tbl == t && b.next == nil {
+						if k, isc := kit.ConstInt(ia.Index); isc && k == 0 {
+							return ""
+						}
+						return "an element other than element 0 of the bucket is returned"
+					}
+				}
+				if a, ok := x.X.(*ssa.Alloc); ok && a.Referrers() != nil { // result variable assigned on several paths
+					for _, ref := range *a.Referrers() {
+						if st, ok := ref.(*ssa.Store); ok && st.Addr == ssa.Value(a) {
+							if why := classify(st.Val, seen); why != "" {
+								return why
+							}
+						}
+					}
+					return ""
+				}
+			}
+		}
+		return "a route that is not the head of a bucket read from the table's map is returned (fast path / cache)"
+	}
+	for _, ret := range kit.Returns(fn) {
+		if ret.Block() == fn.Recover || len(ret.Results) != 1 {
+			continue
+		}
+		v := kit.ReturnResult(ret, 0)
+		if kit.IsNilConst(v) {
+			dominated := false
+			for _, lk := range lookups {
+				if kit.Precedes(lk, ret) {
+					dominated = true
+				}
+			}
+			if !dominated && !c08TrivialNilReturn(fn, ret) {
+				bad = append(bad, "nil is returned at "+p.Pos(ret.Pos())+" before any bucket was read, on a condition other than an empty argument or an empty table (negative cache / filter): a stored route is not reported")
+			}
+			continue
+		}
+		if why := classify(v, map[ssa.Value]bool{}); why != "" {
+			bad = append(bad, "return at "+p.Pos(ret.Pos())+": "+why)
+		}
+	}
+	return bad
+}
+
 // c09Keyed decides R5 for a single-map keyed table.
 func (m *c08Model) c09Keyed(r *kit.Report, t *c08Table) {
 	p := m.p
@@ -413,6 +542,12 @@ func (m *c08Model) c09Keyed(r *kit.Report, t *c08Table) {
 	}
 	r.Decide(bad == "", "C09.R5", name+" result", p.Pos(scan.Pos()),
 		"hit: element 0 of the bucket of the requested key; miss: nil", bad)
+	shape := m.c09ReturnShape(t, scan, func(f *types.Var, key ssa.Value) bool {
+		return len(scan.Params) == 2 && (key == ssa.Value(scan.Params[1]) || c08Canon(key) == c08Canon(scan.Params[1]))
+	})
+	r.Decide(len(shape) == 0, "C09.R5", name+" every result is the head of the requested bucket", p.Pos(scan.Pos()),
+		"every return is nil or element 0 of routes[key] for the key argument; no other bucket, cache or fast path",
+		strings.Join(shape, "; "))
 }
 
 // c09Fold: v passed through strings.ToLower/ToUpper (possibly inside a helper whose result
@@ -615,6 +750,19 @@ func (m *c08Model) c09Domain(r *kit.Report, t *c08Table) {
 	r.Decide(len(r1bad) == 0, "C09.R1", name+" exact before wildcard", pos,
 		"4 scenarios: exact hit -> exact[name][0]; else wildcard hit -> wildcard[suffix][0]; else nil",
 		"domain lookup does not prefer the exact pattern / lowest metric: "+strings.Join(r1bad, "; "))
+
+	shape := m.c09ReturnShape(t, scan, func(f *types.Var, key ssa.Value) bool {
+		if f == exact {
+			if cv, ok := c08CellValue(key); ok {
+				key = cv
+			}
+			return isName(key)
+		}
+		return true // wildcard keys are judged by R2
+	})
+	r.Decide(len(shape) == 0, "C09.R1", name+" every result is the head of an exact or wildcard bucket", pos,
+		"every return is nil or element 0 of exact[name] / wildcard[suffix]; no cache or fast path",
+		strings.Join(shape, "; "))
 
 	// ---- R2: wildcard map access
 	var r2bad []string
